@@ -25,7 +25,7 @@ FL_B = X.flags_from_int(0b10001001)
 def cfg(tier):
     if tier == 'quick':
         return {'cases': [(5, 2)], 'postlen': 2, 'splines': [(3, 2), (5, 1), (7, 2)]}
-    return {'cases': [(5, 2), (3, 1), (7, 2)], 'postlen': 2, 'splines': [(o, d) for o in (3, 5, 7) for d in (1, 2)]}
+    return {'cases': [(5, 2), (3, 1), (7, 2)], 'postlen': 3, 'splines': [(o, d) for o in (3, 5, 7) for d in (1, 2)]}
 
 
 def bounds(tier):
